@@ -1037,12 +1037,12 @@ Section Prefix.
   | sk_u e v l n :
       prefix "imp" (tsp e) = false -> contains_sub "fill" (tsp e) = false ->
       contains_sub "lat" (tsp e) = false -> contains_sub "trcl" (tsp e) = false ->
-      contains_char "u" (tsp e) = true -> float_lit (tsp v) = true ->
+      (tsp e =? "u") = true -> float_lit (tsp v) = true ->
       skippable l n -> skippable (e :: v :: l) (Datatypes.S n)
   | sk_other e l n :
       prefix "imp" (tsp e) = false -> contains_sub "fill" (tsp e) = false ->
       contains_sub "lat" (tsp e) = false -> contains_sub "trcl" (tsp e) = false ->
-      contains_char "u" (tsp e) = false ->
+      (tsp e =? "u") = false ->
       (contains_sub "rho" (tsp e) || contains_sub "mat" (tsp e)) = false ->
       skippable l n -> skippable (e :: l) (Datatypes.S n).
 
